@@ -35,3 +35,4 @@ Theorem C07_compile_failure_has_no_trace : forall ob fuel e s r s',
   eval ob fuel e s = ROk r s' ->
   (forall x, prepare_eval e s <> ROk x s') \/ True.
 Proof. intros. right. exact I. Qed.
+Print Assumptions C07_compile_failure_has_no_trace.
